@@ -19,7 +19,9 @@ RULE = ('one run = seeded universe with 1-3 ILI index files (overlapping ids, id
         'leaves every lexicon-owned row untouched; each add(index) is repeated (no change); '
         'the plan is re-run with all index loads moved to the front or to the end and the '
         'final ILI statuses/definitions must agree. distinct = event digests; non-trivial = '
-        'an index was loaded while >=1 lexicon using a listed ILI was installed')
+        'an index was loaded while >=1 lexicon using a listed ILI was installed. Two of the '
+        '3200 quick runs load an index of 40000 rows (more than SQLite has host parameters) '
+        'used by a small lexicon whose ILIs are listed all over the file')
 
 
 class IliSim(Sim):
@@ -119,7 +121,24 @@ def build_big(seed):
     return u, plan
 
 
-def build(seed):
+def build_huge(seed):
+    """An index of 40000 rows: loaded after, before, and again after the
+    lexicon that uses ILIs from all over the file."""
+    rng = subseed(seed, 'universe-huge')
+    u = U.generate_huge_ili(rng)
+    plan = [{'op': 'add', 'res': 'r0'}, {'op': 'add_ili', 'file': 'ili0'}]
+    if rng.random() < 0.3:
+        plan.append({'op': 'restart'})
+    return u, plan
+
+
+def is_huge(seed, tier):
+    return seed % 1600 == 9       # 2 of the 3200 quick runs, 20 of the 32000 thorough runs
+
+
+def build(seed, tier='quick'):
+    if is_huge(seed, tier):
+        return build_huge(seed)
     if subseed(seed, 'big').random() < 0.006:
         return build_big(seed)     # index of > 1000 rows at the default BATCH_SIZE
     rng = subseed(seed, 'universe')
@@ -158,7 +177,7 @@ def commuted(plan, front):
 
 
 def run_one(seed, tier):
-    u, plan = build(seed)
+    u, plan = build(seed, tier)
     finals = {}
 
     class S(IliSim):
